@@ -62,6 +62,22 @@ class Conclusion(SymbolicExpression[T], ABC):
 
     def _reset_cache_(self) -> None: ...
 
+    def _first_value_result_(
+        self, sources: Dict[int, HashedValue]
+    ) -> OperationResult:
+        """
+        The result the concluded value is taken from: the first one. A result quantifier with a constraint
+        (the(...), an(..., quantification=...)) is evaluated to its end first, so that it can enforce its constraint
+        instead of being abandoned after its first solution.
+        """
+        results = self.value._evaluate__(sources, parent=self)
+        if (
+            isinstance(self.value, ResultQuantifier)
+            and self.value._quantification_constraint_
+        ):
+            results = list(results)
+        return next(iter(results))
+
     @property
     def _plot_color_(self) -> ColorLegend:
         return ColorLegend("Conclusion", "#8cf2ff")
@@ -83,9 +99,9 @@ class Set(Conclusion[T]):
                 self.var._var_._id_
             ]
             sources[self.var._var_._id_] = parent_value
-        sources[self.var._var_._id_] = next(
-            iter(self.value._evaluate__(sources, parent=self))
-        )[self.value._id_]
+        sources[self.var._var_._id_] = self._first_value_result_(sources)[
+            self.value._id_
+        ]
         yield OperationResult(sources, False, self)
 
 
@@ -100,7 +116,7 @@ class Add(Conclusion[T]):
     ) -> Iterable[OperationResult]:
         self._eval_parent_ = parent
         self._yield_when_false_ = False
-        v = next(iter(self.value._evaluate__(sources, parent=self)))[self.value._id_]
+        v = self._first_value_result_(sources)[self.value._id_]
         sources[self.var._var_._id_] = v
         yield OperationResult(sources, False, self)
 
